@@ -65,9 +65,25 @@ def generate(rng, families=("trio",), unrelated=0, n_contigs=(1, 2), n_variants=
             if rng.random() < conflict and trios:
                 # make one child impossible: child hom for an allele one parent lacks
                 f, m, c = rng.choice(trios)
-                if hap[f][0] == hap[f][1]:
+                kind = rng.randrange(3)
+                if kind == 0 and hap[f][0] == hap[f][1]:
                     a = 1 - hap[f][0]
                     hap[c] = [a, a]
+                    inj = "conflict"
+                elif kind == 1:
+                    # both parents homozygous for the same allele, child heterozygous
+                    a = rng.randint(0, 1)
+                    hap[f], hap[m] = [a, a], [a, a]
+                    for (f2, m2, c2) in trios:
+                        if (f2, m2) == (f, m):
+                            hap[c2] = [a, a]
+                    hap[c] = [0, 1]
+                    inj = "conflict"
+                elif kind == 2:
+                    # child homozygous for an allele the mother lacks
+                    a = rng.randint(0, 1)
+                    hap[m] = [a, a]
+                    hap[c] = [1 - a, 1 - a]
                     inj = "conflict"
             calls = []
             for s in order:
